@@ -34,6 +34,22 @@ CHECKS["C03"] = dict(
         "rejects trailing bytes on all accepting paths. A component without a binding (e.g. a new field, a dropped absorption, a weakened "
         "exact-length decision) is reported. Hash/Merkle arithmetic is not decided.",
    design_ref="DESIGN.md §3 C03/C05/C02")
+CHECKS["C18"] = dict(
+   technique="static analysis: must-pass policy decision per enum arm, canonical comparisons, and normal-form comparison of path-wise symbolic expressions with the documented formula",
+   text="Static proof that verify() runs the policy decision first and propagates it, that under each AcceptableOptions variant the accepting "
+        "path passes `security_level(right flag) < minimum` with the right error (option set: no listed option equals the proof's), that "
+        "security_level dispatches to the right estimate fed from the proof context and H::COLLISION_RESISTANCE, that the claimed-field "
+        "decision dominates acceptance, and that the integer conjectured estimate equals the documented formula on every path (symbolic "
+        "normal form, all parameter values at once). Monotonicity and the floating-point proven estimate are not decided.",
+   design_ref="DESIGN.md §3 C18")
+CHECKS["C13"] = dict(
+   technique="static analysis: must-pass cursor advance with inter-method summaries, call-graph absence rule for &self methods, truncation/position pairing, control-dependence of end-of-data sites",
+   text="Static proof over every path of every ByteReader method of SliceReader, Cursor and ReadAdapter that a successful consuming read "
+        "advances the cursor, that the &self look-ahead methods cannot consume, that truncating the spill buffer is paired with a store to "
+        "the position and buffered bytes are only read positioned by it, and that end-of-data is reported/latched only under an observed "
+        "empty fill or reader error. Necessary conditions of `each byte exactly once` and `never reports missing data that is available`; "
+        "value equality with the slice reader for all chunkings is not decided.",
+   design_ref="DESIGN.md §3 C13")
 NA = {
 }
 PENDING = "check under construction in this build round (see DESIGN.md §8)"
